@@ -15,7 +15,13 @@ pub fn format_parse_error(input: &str, err: nom::Err<NomError<&str>>) -> String 
     match err {
         nom::Err::Error(e) | nom::Err::Failure(e) => {
             let error_pos = e.input;
-            let offset = input.len() - error_pos.len();
+            // A nested scanner may report a position that is not a suffix of the request:
+            // keep the derived byte offset inside the text and on a character boundary
+            // before it is used to slice the request.
+            let mut offset = input.len().saturating_sub(error_pos.len());
+            while !input.is_char_boundary(offset) {
+                offset -= 1;
+            }
             
             // Calculate line and column numbers
             let mut line_no = 1;
